@@ -54,7 +54,7 @@ def main():
         out = os.path.join(HERE, "seeded", keep)
         os.makedirs(out, exist_ok=True)
         for f in ("patch.diff", "demo.py", "notes.txt"):
-            if os.path.exists(os.path.join(d, f)):
+            if os.path.exists(os.path.join(d, f)) and os.path.abspath(os.path.join(d, f)) != os.path.abspath(os.path.join(out, f)):
                 shutil.copy(os.path.join(d, f), out)
         notes = open(os.path.join(d, "notes.txt")).read() if os.path.exists(os.path.join(d, "notes.txt")) else ""
         meta = dict(breaks_property=pid, needs_to_manifest=notes[:1500], what_i_ran=res)
